@@ -114,7 +114,16 @@ def ks_replay(pid, wd, path):
         if viols:
             log(f"VIOLATION property={pid} replay={path}")
             return 1
-    # the saved trace itself (free-running runs cannot be re-driven deterministically): re-validate
+    # gated schedules were re-driven on the current code without a failure; a saved FREE-running trace cannot be re-driven
+    # deterministically, so it is re-validated as recorded - only if a violation of the saved run came from free-running mode
+    vj = os.path.join(path, "violations.json")
+    if os.path.exists(vj) and os.path.exists(sched):
+        modes = {v.get("mode") for v in json.load(open(vj))}
+        if "free" not in modes:
+            log(f"[{pid}] every saved violation came from a gate-replayed schedule; none of them recurs on the current code")
+            return 0
+    if not os.path.exists(os.path.join(path, "trace.ndjson")):
+        return 0
     shutil.copy(os.path.join(path, "trace.ndjson"), wd)
     t = tlc(wd, "KSTrace.tla", cfg="KSTraceReplay.cfg", workers=1, timeout=3600, allow_violation=True)
     log("\n".join(l for l in t["out"].splitlines() if l.startswith(("Error", "State", "/\\ viol", "/\\ l "))))
